@@ -2,7 +2,7 @@ SPECIFICATION Spec
 CONSTANTS
   Apps <- AllApps
   Catching <- Both
-  Verbs <- Verbs4
+  Verbs <- Verbs2
   MCLines <- LinesTwo
   Pres <- PresNone
   MaxListeners = 0
